@@ -26,13 +26,14 @@ func init() {
 }
 
 type pairCase struct {
-	Kind   string   `json:"kind"`
-	Forest string   `json:"forest"`
-	S1     Spelling `json:"s1"`
-	S2     Spelling `json:"s2"`
-	Fmt    Fmt4     `json:"fmt"`
-	Exts   []string `json:"exts,omitempty"`
-	WithFS bool     `json:"with_fs"`
+	Kind    string   `json:"kind"`
+	Forest  string   `json:"forest"`
+	Forest2 string   `json:"heading_sections,omitempty"` // when set: `forest` as list roots, then these as heading sections
+	S1      Spelling `json:"s1"`
+	S2      Spelling `json:"s2"`
+	Fmt     Fmt4     `json:"fmt"`
+	Exts    []string `json:"exts,omitempty"`
+	WithFS  bool     `json:"with_fs"`
 }
 
 func forestOfEnc(enc string) []*Tree {
@@ -107,13 +108,27 @@ func allOutputs(doc []byte, f Fmt4, exts []string, withFS bool) map[string]strin
 	return res
 }
 
+// spellMixed: list roots first (spelled as a list-rooted document), then the same notation with heading roots
+func spellMixed(lists, heads []*Tree, s Spelling) []byte {
+	a, b := s, s
+	a.Sharp, b.Sharp = false, true
+	a.FinalNL, b.LeadBlank = true, false
+	return append(spell(lists, a), spell(heads, b)...)
+}
+
 func runPair(m *Model, c pairCase) []Diff {
 	f := forestOfEnc(c.Forest)
 	d1, d2 := spell(f, c.S1), spell(f, c.S2)
+	if c.Forest2 != "" {
+		d1, d2 = spellMixed(f, forestOfEnc(c.Forest2), c.S1), spellMixed(f, forestOfEnc(c.Forest2), c.S2)
+	}
 	r1 := allOutputs(d1, c.Fmt, c.Exts, c.WithFS)
 	r2 := allOutputs(d2, c.Fmt, c.Exts, c.WithFS)
 	var diffs []Diff
 	for k, v := range r1 {
+		if c.Forest2 != "" && k == "walk+massive" {
+			continue // list roots before heading roots: known finding c10.list-roots-before-heading-roots
+		}
 		if r2[k] != v {
 			diffs = append(diffs, Diff{What: "spelling changes the " + k + " result", Real: v, Model: r2[k]})
 		}
@@ -167,6 +182,21 @@ func runC15(ctx *Ctx) *Report {
 			continue
 		}
 		pairs = append(pairs, pairCase{Kind: "spell-pair", Forest: encForest(f), S1: s1, S2: s2, Fmt: allFormats()[k%len(allFormats())], Exts: extLists[k%len(extLists)]})
+	}
+	// documents that begin with list roots and go on with heading sections, in pairs of spellings
+	{
+		lists := forestsUpTo(3, []string{"a", "b"})
+		k := 0
+		for li := 0; li < len(lists); li += 3 {
+			for hi := 1; hi < len(lists); hi += 5 {
+				k++
+				i, j := k%len(sps), (k*7+3)%len(sps)
+				if i == j {
+					continue
+				}
+				pairs = append(pairs, pairCase{Kind: "spell-pair", Forest: encForest(lists[li]), Forest2: encForest(lists[hi]), S1: sps[i], S2: sps[j], Fmt: fmtDefault, Exts: extLists[k%len(extLists)]})
+			}
+		}
 	}
 	for bi, name := range []string{"deep", "wide", "many-roots"} {
 		f := bigShapes()[name]
